@@ -187,14 +187,14 @@ Definition conv_array (l : entries) (kids : list (string * kid)) : res yaml :=
 
 Definition conv_struct (cls : yaml) (l : entries) (kids : list (string * kid)) : res yaml :=
   let n := copy_prop [("class", cls)] l "min-align" "minimum-alignment" in
-  match lookup "fields" l with
+  match getn "fields" l with             (* `v2_ft_node.get('fields') is not None` since fix 616725c in /repo *)
   | None => Ok (YMap n)
   | Some (YMap _) =>
       match klookup "fields" kids with
       | Some (_, fk) => rbind (seq_fields fk) (fun ms => Ok (YMap (n ++ [("members", YSeq ms)])))
       | None => Crash
       end
-  | Some _ => Crash                       (* `fields: null` -> None.items(): AttributeError *)
+  | Some _ => Crash                       (* .items() of a non-mapping: AttributeError (excluded by the schema) *)
   end.
 
 (* _conv_ft_node on a mapping, given the conversions of its children *)
@@ -298,14 +298,14 @@ Definition clk_name (o : option yaml) : res (option yaml) :=
 
 Definition first_some (a b : option yaml) : option yaml := match a with Some _ => a | None => b end.
 
-(* the `fields` node of a header structure type that may be missing: Some None = the type is None,
-   or its `fields` is null *)
+(* the `fields` node of a header structure type that may be missing: None = the type is None, or it
+   has no `fields`, or its `fields` is null (`.get('fields')` since fix 616725c in /repo) *)
 Definition opt_fields (t : option yaml) : res (option entries) :=
   match t with
   | None => Ok None
   | Some (YMap tl) =>
       match lookup "fields" tl with
-      | None => Crash                                    (* KeyError: 'fields' *)
+      | None => Ok None
       | Some YNull => Ok None
       | Some (YMap fl) => Ok (Some fl)
       | Some _ => Crash
@@ -380,7 +380,7 @@ Definition conv_dst (y : yaml) : res yaml :=
                         Ok (YMap (n ++ [("event-record-types", YMap evs')])))
                   | _ => Crash
                   end)))))))))))))
-              | _ => Crash                               (* `fields: null` -> None.get: AttributeError *)
+              | _ => Crash                               (* the schema requires a mapping (fix 616725c); otherwise .get fails *)
               end)
           end
       | _ => Crash
